@@ -834,6 +834,60 @@ def check_quadratic(idx: Index, rep: Report) -> None:
     rep.extra.setdefault("c07_r8_functions", nfun)
 
 
+def check_block_table(idx: Index, rep: Report) -> None:
+    """Parser.blocks maps a label to (block, span of its definition or None while only forward-referenced);
+    Parser.forward_block_references has an entry exactly for the labels in the second state.  `_parse_block` pops that
+    entry with a one-argument dict.pop (KeyError when absent), so the two tables must move together: a (block, None)
+    entry is stored only together with a forward reference, the pop happens only for an entry whose span is None, and the
+    definition span is recorded before the function goes on -- otherwise a second definition of the same label finds
+    'span None' again and pops a key that is gone."""
+    r = rep.rule("C07.R9", "the forward-reference table and the block table of the parser change together: a one-argument pop of forward_block_references is reached only for an entry whose definition span is None, and the span is recorded on every path after it", floor=2)
+    PC = "xdsl/parser/core.py"
+    mi = idx.module(PC)
+    n_pop = 0
+    for f in raw_funcs(mi):
+        fn = f.node
+        cfg = None
+        # (1) a (block, None) entry is stored only where a forward reference is recorded
+        for st in walk_local(fn):
+            if isinstance(st, ast.Assign) and isinstance(st.targets[0], ast.Subscript) and unparse(st.targets[0].value) == "self.blocks" and isinstance(st.value, ast.Tuple) and len(st.value.elts) == 2 and isinstance(st.value.elts[1], ast.Constant) and st.value.elts[1].value is None:
+                key = unparse(st.targets[0].slice)
+                paired = any(isinstance(c, ast.Call) and call_attr(c) == "append" and unparse(c.func.value) == f"self.forward_block_references[{key}]" for c in calls_in(fn))
+                inst = f"{f.fq}:forward-entry"
+                if paired:
+                    r.ok(inst, f"{PC}:{st.lineno} forward-declared block registered together with its reference")
+                else:
+                    r.fail(inst, Finding("C07.R9", f.fq, "forward-entry-unpaired", f"`{unparse(st)[:70]}` registers a block as 'not defined yet' without recording a forward reference for `{key}`: its definition then pops a missing key (KeyError)", f"{PC}:{st.lineno}"))
+        # (2)+(3) the pop
+        for c in calls_in(fn):
+            if call_attr(c) == "pop" and isinstance(c.func, ast.Attribute) and unparse(c.func.value) == "self.forward_block_references" and len(c.args) == 1:
+                n_pop += 1
+                if cfg is None:
+                    cfg = CFG(fn)
+                key = unparse(c.args[0])
+                inst = f"{f.fq}:pop"
+                facts = norm_facts(text_facts(fn, c))
+                # the span local: second component unpacked from self.blocks[key]
+                span_names = [unparse(t.elts[1]) for a in walk_local(fn) if isinstance(a, ast.Assign) and unparse(a.value) == f"self.blocks[{key}]" for t in a.targets if isinstance(t, ast.Tuple) and len(t.elts) == 2]
+                span_none = any((f"{sn} is not None", False) in facts or (f"{sn} is None", True) in facts for sn in span_names) or (f"self.blocks[{key}][1] is None", True) in facts
+                member = (f"{key} in self.forward_block_references", True) in facts
+                if not (span_none or member):
+                    r.fail(inst, Finding("C07.R9", f.fq, "pop-unguarded", f"`{unparse(c)}` raises KeyError for a label without a pending forward reference, and nothing on the way establishes that the entry of `{key}` is still undefined (span None) or that the key is present", f"{PC}:{c.lineno}"))
+                    continue
+                if member:
+                    r.ok(inst, f"{PC}:{c.lineno} pop under a membership test")
+                    continue
+                rec = {cfg.node_of(st) for st in walk_local(fn) if isinstance(st, ast.Assign) and isinstance(st.targets[0], ast.Subscript) and unparse(st.targets[0].value) == "self.blocks" and unparse(st.targets[0].slice) == key and isinstance(st.value, ast.Tuple) and len(st.value.elts) == 2 and not (isinstance(st.value.elts[1], ast.Constant) and st.value.elts[1].value is None)}
+                pnode = cfg.node_of(c)
+                leak = cfg.path_avoiding(pnode, cfg.exit, lambda x: x.id in rec, follow_exc=False)
+                if leak is None:
+                    r.ok(inst, f"{PC}:{c.lineno} entry is 'undefined' at the pop and its definition span is recorded afterwards")
+                else:
+                    r.fail(inst, Finding("C07.R9", f.fq, "definition-not-recorded", f"after `{unparse(c)}` the entry `self.blocks[{key}]` keeps the span None: a second `^{{label}}:` for the same label passes the re-declaration test again and pops a key that is no longer there - KeyError instead of the 're-declaration of block' diagnostic", f"{PC}:{c.lineno}"))
+    if n_pop == 0:
+        raise AnalysisError(f"{PC}: no one-argument pop of forward_block_references found (expected in _parse_block)")
+
+
 def check(idx: Index, rep: Report, tier: str) -> str:
     rep.run(check_redos, idx, rep, tier)
     rep.run(check_unicode_predicates, idx, rep)
@@ -846,6 +900,7 @@ def check(idx: Index, rep: Report, tier: str) -> str:
     rep.run(check_raw_indexing, idx, rep)
     rep.run(check_find_sentinel, idx, rep)
     rep.run(check_quadratic, idx, rep)
+    rep.run(check_block_table, idx, rep)
     return (
         "Regular-language ambiguity analysis of every regex of the lexer/parser modules (ReDoS), Unicode-width check of "
         "the lexer's digit dispatch, and a guard / sibling-agreement classification of every raise, assert and partial "
